@@ -586,6 +586,14 @@ func (g *gen) genBlock(bi int) {
 	}
 }
 
+// PriorSpec implements Prior for the generator.
+func (g *gen) PriorSpec(block, tx int) (TxSpec, bool) {
+	if pf, ok := g.txFacts[[2]int{block, tx}]; ok && pf.Spec.Kind != "replay" {
+		return pf.Spec, true
+	}
+	return TxSpec{}, false
+}
+
 func (g *gen) honest(s TxSpec) TxSpec {
 	s.SignBy = s.Acct
 	s.Fee = -1
@@ -608,12 +616,7 @@ func (g *gen) addTx(bi int, s TxSpec) {
 			}
 		}
 	}
-	f := BuildTx(g.kr, rs, func(b, t int) []byte {
-		if pf, ok := g.txFacts[[2]int{b, t}]; ok {
-			return pf.Bytes
-		}
-		return []byte("no-such-prior-tx")
-	})
+	f := BuildTx(g.kr, rs, g)
 	g.txFacts[[2]int{bi, ti}] = &f
 	g.pendingIndex = append(g.pendingIndex, f.Hash)
 	if g.m.Desync != "" {
@@ -629,9 +632,6 @@ func (g *gen) addTx(bi int, s TxSpec) {
 		stage = "pre"
 	case p.HandlerMustFail:
 		stage = "handler"
-	}
-	if f.IsReplayOf {
-		stage = "pre"
 	}
 	if stage == "ok" && !g.validBasic(&rs, &f) {
 		stage = "pre"
@@ -805,6 +805,11 @@ func (g *gen) genTx(bi int) {
 		}
 		if r.Chance(0.03) {
 			s.To = []int{AcctFee, AcctDAO, AcctPos}[r.Intn(3)]
+			if s.To == AcctPos && bi < 2 {
+				// observation O1 (DESIGN.md): coins sent to a module address before the module account
+				// exists create a plain account there and the next fee distribution halts the chain
+				s.To = AcctDAO
+			}
 		}
 		bal := g.balance(s.Acct)
 		f := big.NewInt(10000 * g.feeMult("send"))
@@ -854,7 +859,7 @@ func (g *gen) genTx(bi int) {
 		}
 		s.ParamVal = g.paramValue(k)
 		if r.Chance(0.1) {
-			s.ParamVal = []string{"{", "\"x\"", "12", "null", "[1,2]", "{\"a\":1}"}[r.Intn(6)]
+			s.ParamVal = []string{"{", "\"x\"", "12", "[1,2]", "{\"a\":1}", ""}[r.Intn(6)]
 		}
 		if r.Chance(0.05) {
 			s.ParamKey = []string{"pos/Nope", "nope", "gov/", "/acl", "auth/FeeMultipliers/x"}[r.Intn(5)]
